@@ -1073,12 +1073,14 @@ func (e *ctEngine) block(pending []*ctTx, dt uint64) {
 		}
 		anyTook = true
 		if pred.exp == mustRefuse {
-			r.Violation(pred.rule, "", "%s by %s succeeded although %s", bt.desc, signerNames(bt.signers), pred.reason)
 			if pred.apply == nil {
 				// cannot be followed: the model is out of step from here on
+				r.Violation(pred.rule, "", "%s by %s succeeded although %s", bt.desc, signerNames(bt.signers), pred.reason)
 				r.Checkpoint()
 				return
 			}
+			// followed below: a rule of the other property does not end the run
+			r.ViolationSynced(pred.rule, "", "%s by %s succeeded although %s", bt.desc, signerNames(bt.signers), pred.reason)
 		}
 		if !ctSameEvents(pred.cevs, cevs, false) {
 			r.Violation("C04/notification-mismatch", "", "%s: expected %s got %s", bt.desc, ctEvStr(pred.cevs), ctEvStr(cevs))
